@@ -22,20 +22,27 @@ with the first `k` writes complete and a prefix of the next one (`crashImage`).
   8  the torn header write: tornHeader_early (cut ≤ 32: rejected), tornHeader_mid (32 < cut < 40:
        truncated XML length), tornHeader_late (cut ≥ 40: the complete file up to the 4 checksum bytes
        of page 0), tornHeader_newLength;
-       open_swap, tornHeader_late_opens / _accepted (such an image is opened like the complete file);
-       torn_header_rejected_statement (+ _false, with a kernel-checked witness)
+       with the header page check of `E57Reader::new` (`checkHeaderPage`): newPage0_valid,
+       tornHeader_late_valid_iff (cut ≥ 40: page 0 valid ⇔ the image is the complete file),
+       tornHeader_late_rejected, torn_header_rejected (rejected unless the cut is inside the XML-length
+       field AND the torn page 0 happens to carry a valid checksum);
+       open_swap, tornHeader_late_opens / _accepted (now under the hypothesis that page 0 is valid);
+       torn_header_rejected_statement (+ _false, with a kernel-checked witness: a CRC collision)
   9  a whole session ending with finalize: finalize_crash, finalize_succeeds, ex_finalize, ex_finalize_closed
   10 open_unfinalized_iff: the hypothesis `RejectsEmpty` cannot be weakened
 
 Findings
   * `Drop for PagedWriter` flushes: dropping the writer without `finalize` is one MORE device write
     (not "no further writes"); covered by `dropped_rejected`.
-  * `Reader.open` never checks the checksum of page 0 (the header is read raw).  A header write torn
-    at a cut in 40..1023 leaves the final header over the old page-0 checksum: such an image is opened
-    like the complete file although page 0 fails its CRC (tornHeader_late states the exact difference:
-    bytes 1020..1024 only; tornHeader_late_opens; torn_header_rejected_statement_false is the
-    machine-checked witness).  No partial data is presented: all payload bytes are the final ones, and
-    a later read that touches page 0 through the paged reader fails on the checksum.
+  * (repaired in the crate, `validate_header_page`) `Reader.open` did not check the checksum of page 0
+    (the header is read raw).  A header write torn at a cut in 40..1023 leaves the final header over the
+    old page-0 checksum: such an image was opened like the complete file although page 0 fails its CRC.
+    `Reader.open` now reads the 48 header bytes once more through the paged reader: such an image is
+    rejected (tornHeader_late_rejected); tornHeader_late states the exact difference (bytes 1020..1024
+    only).  What remains is a cut inside the XML-length field (33..39) whose torn page 0 -- truncated XML
+    length, checksum of the placeholder page -- collides with a valid checksum:
+    torn_header_rejected_statement_false is the machine-checked witness (the file-length field, which
+    the reader ignores, is chosen to produce the collision).
   * A cut inside the XML-length field (33..39) yields a header with the XML length reduced modulo
     256^(cut-32) (tornHeader_mid); whether such an image is rejected depends on the XML parser refusing
     a proper prefix of the XML text (outside the model).
@@ -45,6 +52,8 @@ import E57.Model.Writer
 import E57.Model.Reader
 import E57.Proofs.PagesWrite
 import E57.Proofs.PagesRead
+import E57.Proofs.HeaderPage
+import E57.Proofs.History
 import E57.Proofs.CrcAlgebra
 import E57.Proofs.WriterProps
 namespace E57
@@ -97,7 +106,11 @@ theorem open_rejects_unfinalized (d : Bytes) (xo : XmlOracle) (fp : FloatParse)
     simp only [Option.bind_eq_bind, Option.bind_some]
     cases hp : (PR.new ⟨d, 48⟩ h.pageSize).toOption with
     | none => rfl
-    | some pr =>
+    | some pr0 =>
+      simp only [Option.bind_some]
+      cases hc : checkHeaderPage pr0 with
+      | none => rfl
+      | some pr =>
       simp only [Option.bind_some]
       rw [hz]
       rcases extractXml_zero pr h.xmlOffset with e | ⟨r', e⟩
@@ -1957,7 +1970,7 @@ def openTail (xo : XmlOracle) (fp : FloatParse) (h : FileHeader) (xml : Bytes) :
 theorem open_view (d : Bytes) (xo : XmlOracle) (fp : FloatParse) :
     (Reader.open d xo fp).map readerView =
       (FileHeader.read d).bind fun h =>
-        ((PR.new ⟨d, 48⟩ h.pageSize).toOption.bind fun pr =>
+        ((PR.new ⟨d, 48⟩ h.pageSize).toOption.bind fun pr0 => (checkHeaderPage pr0).bind fun pr =>
           (extractXml pr h.xmlOffset h.xmlLength).map (·.2)).bind (openTail xo fp h) := by
   unfold Reader.open
   cases FileHeader.read d with
@@ -1966,7 +1979,11 @@ theorem open_view (d : Bytes) (xo : XmlOracle) (fp : FloatParse) :
     simp only [Option.bind_eq_bind, Option.bind_some]
     cases (PR.new ⟨d, 48⟩ h.pageSize).toOption with
     | none => rfl
-    | some pr =>
+    | some pr0 =>
+      simp only [Option.bind_some]
+      cases checkHeaderPage pr0 with
+      | none => rfl
+      | some pr =>
       simp only [Option.bind_some]
       cases extractXml pr h.xmlOffset h.xmlLength with
       | none => rfl
@@ -2039,10 +2056,19 @@ theorem prNew_swap (d1 d2 : Bytes) (hl : d1.length = d2.length) (ps : Nat) :
           subst h
           exact ⟨rfl, rfl⟩
 
+theorem toOption_ok {α} {o : Outcome α} {a : α} (h : o.toOption = some a) : o = .ok a := by
+  cases o with
+  | ok b => cases h; rfl
+  | err e => cases h
+  | panic e => cases h
+
 /-- two device contents of equal length that agree on the first 48 bytes and on everything behind
-    page 0, with the XML section behind page 0, are indistinguishable for `Reader.open` -/
+    page 0, with the XML section behind page 0, and whose pages 0 are both valid or both invalid, are
+    indistinguishable for `Reader.open` (the hypothesis `hv` is new with the header page check of
+    `E57Reader::new`: without it the two contents can differ in the checksum bytes of page 0) -/
 theorem open_swap (d1 d2 : Bytes) (xo : XmlOracle) (fp : FloatParse) (hl : d1.length = d2.length)
     (h48 : d1.take 48 = d2.take 48) (hd : d1.drop 1024 = d2.drop 1024)
+    (hv : pageValid (devPage d1 1024 0) 1024 ↔ pageValid (devPage d2 1024 0) 1024)
     (hoff : ∀ h, FileHeader.read d1 = some h → 1024 ≤ h.xmlOffset) :
     (Reader.open d1 xo fp).map readerView = (Reader.open d2 xo fp).map readerView := by
   rw [open_view, open_view, ← read_congr d1 d2 hl h48]
@@ -2057,9 +2083,25 @@ theorem open_swap (d1 d2 : Bytes) (xo : XmlOracle) (fp : FloatParse) (hl : d1.le
     | none => rfl
     | some r =>
       obtain ⟨g1, g2⟩ := hprop r hp
+      rw [hp] at hn
       simp only [Option.map_some, Option.bind_some]
-      exact (extractXml_swap d2 r h.xmlOffset h.xmlLength (by rw [g1]; exact read_pageSize d1 h hr)
-        (hoff h hr) (by rw [g2]; exact hd)).symm
+      have hps : r.pageSize = 1024 := by rw [g1]; exact read_pageSize d1 h hr
+      have i1 : r.CacheInv := pr_new_inv _ _ r (toOption_ok hp)
+      have i2 : (swapData r d2).CacheInv := pr_new_inv _ _ _ (toOption_ok hn)
+      have hps2 : (swapData r d2).pageSize = 1024 := hps
+      have g3 : (swapData r d2).dev.data = d2 := rfl
+      by_cases hv1 : pageValid (devPage d1 1024 0) 1024
+      · obtain ⟨r1, e1, -⟩ := checkHeaderPage_valid r i1 (by omega) (by rw [g2, hps]; exact hv1)
+        obtain ⟨r2, e2, -⟩ := checkHeaderPage_valid (swapData r d2) i2 (by omega)
+          (by rw [g3, hps2]; exact hv.mp hv1)
+        rw [e1, e2]
+        simp only [Option.bind_some]
+        rw [extractXml_after_check r r1 i1 e1, extractXml_after_check _ r2 i2 e2]
+        exact (extractXml_swap d2 r h.xmlOffset h.xmlLength hps (hoff h hr) (by rw [g2]; exact hd)).symm
+      · have n1 := (checkHeaderPage_none_iff r i1 (by omega)).mpr (by rw [g2, hps]; exact hv1)
+        have n2 := (checkHeaderPage_none_iff (swapData r d2) i2 (by omega)).mpr
+          (by rw [g3, hps2]; exact fun x => hv1 (hv.mpr x))
+        rw [n1, n2]
 
 theorem read_hdr (d : Bytes) (L O X : Nat) (hl : 48 ≤ d.length) (h : d.take 48 = fileHeaderBytes L O X) :
     FileHeader.read d = some ⟨L % 2 ^ 64, O % 2 ^ 64, X % 2 ^ 64, 1024⟩ := by
@@ -2073,11 +2115,65 @@ theorem read_hdr (d : Bytes) (L O X : Nat) (hl : 48 ≤ d.length) (h : d.take 48
     slice_of_take 32 8 48 (by omega), h, hdr_physLength, hdr_xmlOffset, hdr_xmlLength,
     leVal_toLE, leVal_toLE, leVal_toLE]
 
-/-- **finding**: a header write torn at a cut `c ≥ 40` is opened exactly like the complete file when the
-    XML section lies behind page 0 — although (for `c < 1024`) page 0 still carries the checksum of the
-    placeholder header.  `Reader.open` reads the header raw and never validates page 0. -/
+/-- page 0 of the complete header write carries a valid checksum -/
+theorem newPage0_valid (old : Bytes) (L O X : Nat) (hl : 1024 ≤ old.length) :
+    pageValid (devPage (devWrite old (0, newPage0 old L O X)) 1024 0) 1024 := by
+  have hb := newPage0_length old L O X hl
+  have hp : devPage (devWrite old (0, newPage0 old L O X)) 1024 0 = newPage0 old L O X := by
+    unfold devPage
+    rw [finalHeader_eq old L O X hl, Nat.zero_mul, List.drop_zero]
+    exact take_append_at _ _ 1024 hb
+  rw [hp]
+  unfold pageValid
+  rw [show (1024 - 4 : Nat) = 1020 from rfl, newPage0_take1020 old L O X hl, newPage0_eq]
+  exact drop_append_at _ _ 1020 (by
+    simp only [List.length_append, fileHeaderBytes_length, List.length_take, List.length_drop]; omega)
+
+/-- two contents that agree on the payload of page 0 and behind page 0, both with a valid page 0,
+    are equal (the checksum bytes are determined by the payload) -/
+theorem eq_of_valid_page0 (T F : Bytes) (h1 : T.take 1020 = F.take 1020)
+    (h2 : T.drop 1024 = F.drop 1024) (hT : pageValid (devPage T 1024 0) 1024)
+    (hF : pageValid (devPage F 1024 0) 1024) : T = F := by
+  unfold pageValid devPage at hT hF
+  simp only [Nat.zero_mul, List.drop_zero] at hT hF
+  have a : ∀ D : Bytes, D = D.take 1020 ++ ((D.take 1024).drop 1020 ++ D.drop 1024) := by
+    intro D
+    have e : (D.take 1024).drop 1020 = (D.drop 1020).take 4 := by
+      rw [List.drop_take]
+    rw [e]
+    conv => lhs; rw [← List.take_append_drop 1020 D]
+    congr 1
+    conv => lhs; rw [← List.take_append_drop 4 (D.drop 1020)]
+    rw [List.drop_drop]
+  have tt : ∀ D : Bytes, (D.take 1024).take 1020 = D.take 1020 := by
+    intro D; rw [List.take_take]; rfl
+  have e1 : (1024 - 4 : Nat) = 1020 := rfl
+  rw [e1, tt] at hT hF
+  rw [a T, a F, h1, h2, hT, hF, h1]
+
+/-- **(4b, with the header page check)** for a cut at or behind byte 40 the torn image carries a valid
+    page 0 exactly when it already IS the complete file -/
+theorem tornHeader_late_valid_iff (old : Bytes) (L O X c : Nat) (hl : 1024 ≤ old.length)
+    (h0 : old.take 48 = hdr0) (hc : 40 ≤ c) :
+    pageValid (devPage (tornHeader old L O X c) 1024 0) 1024 ↔
+      tornHeader old L O X c = devWrite old (0, newPage0 old L O X) := by
+  obtain ⟨t1, t2, _⟩ := tornHeader_late old L O X c hl h0 hc
+  constructor
+  · intro hv
+    exact eq_of_valid_page0 _ _ t1 t2 hv (newPage0_valid old L O X hl)
+  · intro e
+    rw [e]
+    exact newPage0_valid old L O X hl
+
+/-- a header write torn at a cut `c ≥ 40` whose page 0 carries a valid checksum is opened exactly like
+    the complete file when the XML section lies behind page 0.  (Before `E57Reader::new` validated the
+    header page this held WITHOUT the hypothesis `hv`: the final header over the checksum of the
+    placeholder header was accepted.  With the check `hv` is needed, and by
+    `tornHeader_late_valid_iff` it holds only when the image is the complete file: see
+    `tornHeader_late_rejected`.) -/
 theorem tornHeader_late_opens (old : Bytes) (L O X c : Nat) (xo : XmlOracle) (fp : FloatParse)
-    (hl : 1024 ≤ old.length) (h0 : old.take 48 = hdr0) (hc : 40 ≤ c) (hO : 1024 ≤ O % 2 ^ 64) :
+    (hl : 1024 ≤ old.length) (h0 : old.take 48 = hdr0) (hc : 40 ≤ c) (hO : 1024 ≤ O % 2 ^ 64)
+    (hv : pageValid (devPage (tornHeader old L O X c) 1024 0) 1024) :
     (Reader.open (tornHeader old L O X c) xo fp).map readerView =
       (Reader.open (devWrite old (0, newPage0 old L O X)) xo fp).map readerView := by
   obtain ⟨t1, t2, t3⟩ := tornHeader_late old L O X c hl h0 hc
@@ -2090,6 +2186,7 @@ theorem tornHeader_late_opens (old : Bytes) (L O X c : Nat) (xo : XmlOracle) (fp
   have tl : 48 ≤ (tornHeader old L O X c).length := by
     rw [t3, finalHeader_eq old L O X hl, List.length_append, newPage0_length old L O X hl]; omega
   apply open_swap _ _ xo fp t3 (by rw [t48, f48]) t2
+    ⟨fun _ => newPage0_valid old L O X hl, fun _ => hv⟩
   intro h hr
   rw [read_hdr _ L O X tl t48] at hr
   cases hr
@@ -2098,9 +2195,10 @@ theorem tornHeader_late_opens (old : Bytes) (L O X c : Nat) (xo : XmlOracle) (fp
 /-- in particular: if the complete file is accepted, so is every such torn image -/
 theorem tornHeader_late_accepted (old : Bytes) (L O X c : Nat) (xo : XmlOracle) (fp : FloatParse)
     (hl : 1024 ≤ old.length) (h0 : old.take 48 = hdr0) (hc : 40 ≤ c) (hO : 1024 ≤ O % 2 ^ 64)
+    (hv : pageValid (devPage (tornHeader old L O X c) 1024 0) 1024)
     (hf : (Reader.open (devWrite old (0, newPage0 old L O X)) xo fp).isSome) :
     (Reader.open (tornHeader old L O X c) xo fp).isSome := by
-  have := tornHeader_late_opens old L O X c xo fp hl h0 hc hO
+  have := tornHeader_late_opens old L O X c xo fp hl h0 hc hO hv
   cases h1 : Reader.open (tornHeader old L O X c) xo fp with
   | some r => rfl
   | none =>
@@ -2109,7 +2207,37 @@ theorem tornHeader_late_accepted (old : Bytes) (L O X c : Nat) (xo : XmlOracle) 
     | none => rw [h2] at hf; cases hf
     | some r => rw [h2] at this; cases this
 
-/-! ## the full-strength statement is false at the header write -/
+/-- **the finding is repaired**: a header write torn at a cut `c ≥ 40` that is not yet the complete
+    file is rejected (its page 0 holds the final header over the checksum of the placeholder header,
+    and `E57Reader::new` now validates that page) -/
+theorem tornHeader_late_rejected (old : Bytes) (L O X c : Nat) (xo : XmlOracle) (fp : FloatParse)
+    (hl : 1024 ≤ old.length) (h0 : old.take 48 = hdr0) (hc : 40 ≤ c)
+    (hne : tornHeader old L O X c ≠ devWrite old (0, newPage0 old L O X)) :
+    Reader.open (tornHeader old L O X c) xo fp = none := by
+  cases h : Reader.open (tornHeader old L O X c) xo fp with
+  | none => rfl
+  | some rd =>
+    exact absurd ((tornHeader_late_valid_iff old L O X c hl h0 hc).mp
+      (HeaderPage.open_checks_header_page _ xo fp rd h)) hne
+
+/-- **what is true of the header write now**: an image from the middle of the header write that differs
+    from the complete file is rejected for every cut outside the XML-length field (`c ≤ 32` or
+    `40 ≤ c`), and for a cut inside it (33..39) unless the torn page 0 -- final file length and XML
+    offset, XML length truncated, checksum of the placeholder header -- happens to carry a valid
+    checksum (a CRC collision, see `torn_header_rejected_statement_false`) -/
+theorem torn_header_rejected (old : Bytes) (L O X c : Nat) (xo : XmlOracle) (fp : FloatParse)
+    (hxo : RejectsEmpty xo fp) (hl : 1024 ≤ old.length) (h0 : old.take 48 = hdr0)
+    (hne : tornHeader old L O X c ≠ devWrite old (0, newPage0 old L O X))
+    (hc : c ≤ 32 ∨ 40 ≤ c ∨ ¬ pageValid (devPage (tornHeader old L O X c) 1024 0) 1024) :
+    Reader.open (tornHeader old L O X c) xo fp = none := by
+  rcases hc with hc | hc | hc
+  · exact open_rejects_unfinalized _ xo fp hxo (tornHeader_early old L O X c hl h0 hc)
+  · exact tornHeader_late_rejected old L O X c xo fp hl h0 hc hne
+  · cases h : Reader.open (tornHeader old L O X c) xo fp with
+    | none => rfl
+    | some rd => exact absurd (HeaderPage.open_checks_header_page _ xo fp rd h) hc
+
+/-! ## the full-strength statement is still false at the header write -/
 
 /-- "a device image from the middle of the header write is rejected unless it already equals the
     complete file" -/
@@ -2119,8 +2247,12 @@ def torn_header_rejected_statement : Prop :=
     tornHeader old L O X c ≠ devWrite old (0, newPage0 old L O X) →
     Reader.open (tornHeader old L O X c) xo fp = none
 
+/-- a file length field for which the header page collides: `wP0c` below has the checksum of the
+    placeholder page (found by solving the linear system over GF(2); the reader ignores the field) -/
+def wLc : Nat := 3771725925
 def wP0old : Bytes := hdr0 ++ zeros 972
-def wP0new : Bytes := fileHeaderBytes 2048 1024 1 ++ zeros 972
+/-- page-0 payload of the torn image: final length and offset, XML length 257 truncated to its low byte -/
+def wP0c : Bytes := fileHeaderBytes wLc 1024 1 ++ zeros 972
 def wP1 : Bytes := zeros 1020
 /-- two flushed pages of an unfinalized file: placeholder header, one page of data -/
 def wOld : Bytes := sealP wP0old ++ sealP wP1
@@ -2144,24 +2276,13 @@ theorem doc0_ok : (rootFromDocument fp0 doc0).isSome ∧ (pointcloudsFromDocumen
 theorem xo0_rejectsEmpty : RejectsEmpty xo0 fp0 := rejectsEmpty_of_none xo0 fp0 rfl
 
 set_option maxRecDepth 1000000 in
-theorem w_crc_ne : crc32cRef wP0old ≠ crc32cRef wP0new := by decide +kernel
-
-theorem crcBytes_inj (a b : Bytes) (h : crcBytes a = crcBytes b) : crc32c a = crc32c b := by
-  unfold crcBytes toBE32 at h
-  have h1 := List.reverse_inj.mp h
-  have h2 := congrArg leVal h1
-  rw [leVal_toLE, leVal_toLE] at h2
-  have ha := (crc32c a).toNat_lt
-  have hb := (crc32c b).toNat_lt
-  have : (crc32c a).toNat = (crc32c b).toNat := by
-    rw [Nat.mod_eq_of_lt (by simpa using ha), Nat.mod_eq_of_lt (by simpa using hb)] at h2
-    exact h2
-  exact UInt32.toNat_inj.mp this
+/-- the CRC collision (kernel-evaluated, bitwise reference CRC) -/
+theorem w_crc_eq : crc32cRef wP0old = crc32cRef wP0c := by decide +kernel
 
 theorem wP0old_length : wP0old.length = 1020 := by
   simp [wP0old, hdr0_length, zeros_length]
-theorem wP0new_length : wP0new.length = 1020 := by
-  simp [wP0new, fileHeaderBytes_length, zeros_length]
+theorem wP0c_length : wP0c.length = 1020 := by
+  simp [wP0c, fileHeaderBytes_length, zeros_length]
 theorem wP1_length : wP1.length = 1020 := by simp [wP1, zeros_length]
 
 theorem wOld_length : wOld.length = 2048 := by
@@ -2173,70 +2294,117 @@ theorem wOld_take48 : wOld.take 48 = hdr0 := by
   rw [this]
   exact take_append_at _ _ 48 hdr0_length
 
-theorem wNewPage0 : newPage0 wOld 2048 1024 1 = sealP wP0new := by
-  rw [newPage0_eq]
-  have h1 : wOld = hdr0 ++ (zeros 972 ++ (crcBytes wP0old ++ sealP wP1)) := by
-    simp [wOld, sealP, wP0old]
-  have h2 : (wOld.drop 48).take 972 = zeros 972 := by
-    rw [h1, drop_append_at _ _ 48 hdr0_length]
-    exact take_append_at _ _ 972 (zeros_length _)
-  rw [h2]
-  rfl
+/-- page 0 of the old device content is valid (`wOld` is what a real session leaves behind) -/
+theorem wOld_page0_valid : pageValid (devPage wOld 1024 0) 1024 := by
+  have hp : devPage wOld 1024 0 = sealP wP0old := by
+    unfold devPage wOld
+    rw [Nat.zero_mul, List.drop_zero]
+    exact take_append_at _ _ 1024 (sealP_length _ wP0old_length)
+  rw [hp]
+  unfold pageValid sealP
+  rw [show (1024 - 4 : Nat) = 1020 from rfl, take_append_at _ _ 1020 wP0old_length,
+    drop_append_at _ _ 1020 wP0old_length]
 
-theorem wFinal : devWrite wOld (0, newPage0 wOld 2048 1024 1) = Spec.image (wP0new ++ wP1) := by
-  rw [finalHeader_eq wOld _ _ _ (by rw [wOld_length]; omega), wNewPage0]
-  have h1 : wOld.drop 1024 = sealP wP1 := by
-    unfold wOld
-    exact drop_append_at _ _ 1024 (sealP_length _ wP0old_length)
-  rw [h1]
-  have hu : Uniform 1020 [wP0new, wP1] := by
+theorem wD_length : (wP0c ++ wP1).length = 2040 := by
+  rw [List.length_append, wP0c_length, wP1_length]
+
+/-- the header write torn after 33 bytes (inside the XML-length field: 257 has become 1) IS a
+    well-formed file: the page writer's image of two payload pages -/
+theorem wTorn_image : tornHeader wOld wLc 1024 257 33 = Spec.image (wP0c ++ wP1) := by
+  have hl : 1024 ≤ wOld.length := by rw [wOld_length]; omega
+  rw [tornHeader_eq wOld _ _ _ 33 hl, newPage0_eq]
+  have ha : (fileHeaderBytes wLc 1024 257 ++ (wOld.drop 48).take 972 ++
+      crcBytes (fileHeaderBytes wLc 1024 257 ++ (wOld.drop 48).take 972)).take 33 =
+      (fileHeaderBytes wLc 1024 1).take 33 := by
+    rw [List.append_assoc, List.take_append_of_le_length (by rw [fileHeaderBytes_length]; omega)]
+    decide +kernel
+  rw [ha]
+  have hb : wOld.drop (min 33 1024) =
+      (fileHeaderBytes wLc 1024 1).drop 33 ++ (zeros 972 ++ (crcBytes wP0old ++ sealP wP1)) := by
+    have h1 : wOld = hdr0 ++ (zeros 972 ++ (crcBytes wP0old ++ sealP wP1)) := by
+      simp [wOld, sealP, wP0old]
+    rw [h1, show min 33 1024 = 33 from rfl,
+      List.drop_append_of_le_length (by rw [hdr0_length]; omega)]
+    congr 1
+    decide +kernel
+  rw [hb, ← List.append_assoc, List.take_append_drop]
+  have hcrc : crcBytes wP0old = crcBytes wP0c := by
+    unfold crcBytes
+    rw [crc32c_eq_ref, crc32c_eq_ref, w_crc_eq]
+  rw [hcrc]
+  have hu : Uniform 1020 [wP0c, wP1] := by
     intro p hp
     simp at hp
     rcases hp with rfl | rfl
-    · exact wP0new_length
+    · exact wP0c_length
     · exact wP1_length
   have := image_flatten hu
   simp only [List.flatten_cons, List.flatten_nil, List.append_nil, List.map_cons, List.map_nil] at this
-  exact this.symm
+  rw [this]
+  simp [sealP, wP0c]
 
-theorem wD_length : (wP0new ++ wP1).length = 2040 := by
-  rw [List.length_append, wP0new_length, wP1_length]
+theorem wTorn_take48 : (tornHeader wOld wLc 1024 257 33).take 48 = fileHeaderBytes wLc 1024 1 := by
+  rw [wTorn_image]
+  have hu : Uniform 1020 [wP0c, wP1] := by
+    intro p hp
+    simp at hp
+    rcases hp with rfl | rfl
+    · exact wP0c_length
+    · exact wP1_length
+  have := image_flatten hu
+  simp only [List.flatten_cons, List.flatten_nil, List.append_nil, List.map_cons, List.map_nil] at this
+  rw [this]
+  have e : sealP wP0c ++ sealP wP1 =
+      fileHeaderBytes wLc 1024 1 ++ (zeros 972 ++ crcBytes wP0c ++ sealP wP1) := by
+    simp [sealP, wP0c]
+  rw [e]
+  exact take_append_at _ _ 48 (fileHeaderBytes_length _ _ _)
 
-theorem wImage_accepted (F : Bytes) (h48 : F.take 48 = fileHeaderBytes 2048 1024 1)
-    (hF : F = Spec.image (wP0new ++ wP1)) : (Reader.open F xo0 fp0).isSome := by
+/-- the image of two payload pages whose header announces one byte of XML at physical offset 1024 is
+    accepted by `Reader.open` with the front end `xo0` (header page check included) -/
+theorem wImage_accepted (L : Nat) (P0 F : Bytes) (hP0 : P0.length = 1020)
+    (h48 : F.take 48 = fileHeaderBytes L 1024 1)
+    (hF : F = Spec.image (P0 ++ wP1)) : (Reader.open F xo0 fp0).isSome := by
+  have hDl : (P0 ++ wP1).length = 2040 := by rw [List.length_append, hP0, wP1_length]
   have hl : F.length = 2048 := by
-    rw [hF, image_length _ (by rw [wD_length]), wD_length]
+    rw [hF, image_length _ (by rw [hDl]), hDl]
   have hv := open_view F xo0 fp0
-  rw [read_hdr _ 2048 1024 1 (by omega) h48] at hv
+  rw [read_hdr _ L 1024 1 (by omega) h48] at hv
   simp only [Option.bind_some] at hv
   have e1 : (1024 : Nat) % 2 ^ 64 = 1024 := by decide
   have e2 : (1 : Nat) % 2 ^ 64 = 1 := by decide
   rw [e1, e2] at hv
-  obtain ⟨r, hnew, _, _, hphys⟩ := pr_new_image (wP0new ++ wP1) 48 (by rw [wD_length])
-    (by intro h; have := congrArg List.length h; rw [wD_length] at this; cases this)
+  have hDne : P0 ++ wP1 ≠ [] := by
+    intro h; have := congrArg List.length h; rw [hDl] at this; cases this
+  obtain ⟨r0, hnew, _, _, hphys⟩ := pr_new_image (P0 ++ wP1) 48 (by rw [hDl]) hDne
   rw [← hF] at hnew
   rw [hnew] at hv
   simp only [Outcome.toOption, Option.bind_some] at hv
   rw [hF] at hnew
-  have hreach0 : PR.Reach ⟨Spec.image (wP0new ++ wP1), 48⟩ 1024 r := PR.Reach.new r hnew
+  -- the header page check passes: every page of an image is valid
+  obtain ⟨r, hchk, _, _, hsf, _, _, hreach0⟩ :=
+    checkHeaderPage_new_image (P0 ++ wP1) 48 (by rw [hDl]) hDne r0 hnew
+  rw [hchk] at hv
+  simp only [Option.bind_some] at hv
+  have hphys' : r.physSize = 1024 * ((P0 ++ wP1).length / 1020) := hsf.2.2.1.trans hphys
   obtain ⟨_, _, hps⟩ := pr_reach_inv _ _ r hreach0
   have hseek : r.seekPhysical 1024 = .ok ({ r with offset := 1020 }, 1020) := by
     unfold PR.seekPhysical
-    rw [if_neg (by rw [hphys, wD_length]; omega), hps]
+    rw [if_neg (by rw [hphys', hDl]; omega), hps]
   have hreach1 := PR.Reach.seek r 1024 _ _ hreach0 hseek
-  obtain ⟨r', hex, _⟩ := (pr_reach_reads_stream (wP0new ++ wP1) 48 { r with offset := 1020 } 1
-    (by rw [wD_length]) hreach1).2.1 (by rw [wD_length]; show 1020 + 1 ≤ 2040; omega)
-  have hx : extractXml r 1024 1 = some (r', ((wP0new ++ wP1).drop 1020).take 1) := by
+  obtain ⟨r', hex, _⟩ := (pr_reach_reads_stream (P0 ++ wP1) 48 { r with offset := 1020 } 1
+    (by rw [hDl]) hreach1).2.1 (by rw [hDl]; show 1020 + 1 ≤ 2040; omega)
+  have hx : extractXml r 1024 1 = some (r', ((P0 ++ wP1).drop 1020).take 1) := by
     unfold extractXml
     rw [if_neg (by simp [maxXmlSize]), hseek]
     simp only
     rw [hex]
-  have hb : ((wP0new ++ wP1).drop 1020).take 1 = [0] := by
-    rw [drop_append_at _ _ 1020 wP0new_length]; rfl
+  have hb : ((P0 ++ wP1).drop 1020).take 1 = [0] := by
+    rw [drop_append_at _ _ 1020 hP0]; rfl
   rw [hx, hb] at hv
   simp only [Option.map_some, Option.bind_some] at hv
   obtain ⟨d1, d2, d3⟩ := doc0_ok
-  have ht : (openTail xo0 fp0 ⟨2048 % 2 ^ 64, 1024, 1, 1024⟩ [0]).isSome := by
+  have ht : (openTail xo0 fp0 ⟨L % 2 ^ 64, 1024, 1, 1024⟩ [0]).isSome := by
     unfold openTail
     have : xo0 [0] = some doc0 := rfl
     simp only [Option.bind_eq_bind, this, Option.bind_some]
@@ -2256,52 +2424,38 @@ theorem wImage_accepted (F : Bytes) (h48 : F.take 48 = fileHeaderBytes 2048 1024
     rw [← hv] at ht
     cases ht
 
-/-- the complete file of the witness is accepted -/
-theorem wFinal_accepted :
-    (Reader.open (devWrite wOld (0, newPage0 wOld 2048 1024 1)) xo0 fp0).isSome := by
-  apply wImage_accepted _ _ wFinal
-  rw [finalHeader_eq wOld _ _ _ (by rw [wOld_length]; omega), wNewPage0]
-  have : sealP wP0new ++ wOld.drop 1024 =
-      fileHeaderBytes 2048 1024 1 ++ (zeros 972 ++ crcBytes wP0new ++ wOld.drop 1024) := by
-    simp [sealP, wP0new]
-  rw [this]
-  exact take_append_at _ _ 48 (fileHeaderBytes_length _ _ _)
+/-- the torn image of the witness is accepted -/
+theorem wTorn_accepted : (Reader.open (tornHeader wOld wLc 1024 257 33) xo0 fp0).isSome :=
+  wImage_accepted wLc wP0c _ wP0c_length wTorn_take48 wTorn_image
 
-/-- the image torn at byte 40 is not the complete file: page 0 carries the old checksum -/
-theorem wTorn_ne : tornHeader wOld 2048 1024 1 40 ≠ devWrite wOld (0, newPage0 wOld 2048 1024 1) := by
+/-- the complete file of the witness announces 257 bytes of XML, the torn image 1 byte -/
+theorem wTorn_ne :
+    tornHeader wOld wLc 1024 257 33 ≠ devWrite wOld (0, newPage0 wOld wLc 1024 257) := by
   intro h
   have hl : 1024 ≤ wOld.length := by rw [wOld_length]; omega
-  have h1 : ((tornHeader wOld 2048 1024 1 40).drop 1020).take 4 =
-      ((devWrite wOld (0, newPage0 wOld 2048 1024 1)).drop 1020).take 4 := by rw [h]
-  rw [tornHeader_eq wOld _ _ _ 40 hl, finalHeader_eq wOld _ _ _ hl, wNewPage0] at h1
-  have ha : (sealP wP0new).take 40 ++ wOld.drop (min 40 1024) =
-      (sealP wP0new).take 40 ++ wOld.drop 40 := rfl
-  rw [ha] at h1
-  have hlen : ((sealP wP0new).take 40).length = 40 := by
-    rw [List.length_take, sealP_length _ wP0new_length]; rfl
-  rw [List.drop_append, hlen, List.drop_of_length_le (by omega), List.nil_append, List.drop_drop] at h1
-  have e1 : (wOld.drop (40 + (1020 - 40))).take 4 = crcBytes wP0old := by
-    have : wOld = wP0old ++ (crcBytes wP0old ++ sealP wP1) := by simp [wOld, sealP]
-    rw [this, drop_append_at _ _ (40 + (1020 - 40)) wP0old_length]
-    exact take_append_at _ _ 4 (crcBytes_length _)
-  have e2 : ((sealP wP0new ++ wOld.drop 1024).drop 1020).take 4 = crcBytes wP0new := by
-    have : sealP wP0new ++ wOld.drop 1024 = wP0new ++ (crcBytes wP0new ++ wOld.drop 1024) := by
-      simp [sealP]
-    rw [this, drop_append_at _ _ 1020 wP0new_length]
-    exact take_append_at _ _ 4 (crcBytes_length _)
-  rw [e1, e2] at h1
-  have := crcBytes_inj _ _ h1
-  rw [crc32c_eq_ref, crc32c_eq_ref] at this
-  exact w_crc_ne this
+  have h1 := congrArg (List.take 48) h
+  rw [wTorn_take48, finalHeader_eq wOld _ _ _ hl,
+    List.take_append_of_le_length (by rw [newPage0_length wOld _ _ _ hl]; omega)] at h1
+  have h2 : (newPage0 wOld wLc 1024 257).take 48 = fileHeaderBytes wLc 1024 257 := by
+    have : (newPage0 wOld wLc 1024 257).take 48 = ((newPage0 wOld wLc 1024 257).take 1020).take 48 := by
+      rw [List.take_take]; rfl
+    rw [this, newPage0_take1020 wOld _ _ _ hl]
+    exact take_append_at _ _ 48 (fileHeaderBytes_length _ _ _)
+  rw [h2] at h1
+  revert h1
+  decide +kernel
 
-/-- **the statement is false**: the witness is torn at byte 40, differs from the complete file in
-    the checksum of page 0, and is opened -/
+/-- **the statement is still false**, but only through a checksum collision: the witness is a header
+    write torn at byte 33 (inside the XML-length field, 257 truncated to 1) over a device whose page 0
+    is valid (`wOld_page0_valid`); the file-length field is chosen such that the torn page 0 has the
+    CRC of the placeholder page (`w_crc_eq`), so the torn image is a well-formed file
+    (`wTorn_image`) and is opened.  The witness of the unrepaired crate (cut 40: final header over the
+    old checksum, no collision needed) is now rejected: `tornHeader_late_rejected`. -/
 theorem torn_header_rejected_statement_false : ¬ torn_header_rejected_statement := by
   intro h
   have hl : 1024 ≤ wOld.length := by rw [wOld_length]; omega
-  have hno := h wOld 2048 1024 1 40 xo0 fp0 xo0_rejectsEmpty hl wOld_take48 wTorn_ne
-  have hyes := tornHeader_late_accepted wOld 2048 1024 1 40 xo0 fp0 hl wOld_take48 (by omega)
-    (by decide) wFinal_accepted
+  have hno := h wOld wLc 1024 257 33 xo0 fp0 xo0_rejectsEmpty hl wOld_take48 wTorn_ne
+  have hyes := wTorn_accepted
   rw [hno] at hyes
   cases hyes
 
@@ -2482,9 +2636,12 @@ theorem ex_finalize_closed (ft : FloatText) :
 /-! # 10. The hypothesis on the XML front end cannot be weakened -/
 
 /-- … and it cannot be weakened: a flushed image of an unfinalized session (whole pages, placeholder
-    header) is rejected **iff** the front end rejects the empty text -/
+    header, page 0 sealed: `hv0`, needed since `E57Reader::new` validates the header page -- an image
+    with a damaged page 0 is rejected whatever the front end does) is rejected **iff** the front end
+    rejects the empty text -/
 theorem open_unfinalized_iff (d : Bytes) (xo : XmlOracle) (fp : FloatParse)
-    (h48 : d.take 48 = hdr0) (hpos : 0 < d.length) (hm : d.length % 1024 = 0) :
+    (h48 : d.take 48 = hdr0) (hpos : 0 < d.length) (hm : d.length % 1024 = 0)
+    (hv0 : pageValid (devPage d 1024 0) 1024) :
     Reader.open d xo fp = none ↔ RejectsEmpty xo fp := by
   refine ⟨?_, fun h => open_rejects_unfinalized d xo fp h (Hdr0.unfinal (.inr h48))⟩
   intro ho doc hx
@@ -2505,13 +2662,17 @@ theorem open_unfinalized_iff (d : Bytes) (xo : XmlOracle) (fp : FloatParse)
     have hne : d.length ≠ 0 := by omega
     simp [PR.new, Dev.seekEnd, hm, hne]
   simp only [Option.bind_eq_bind, Option.bind_some, hnew, Outcome.toOption] at ho
+  -- the header page check passes on a valid page 0
+  obtain ⟨rc, hchk, -, -, hsf⟩ := checkHeaderPage_valid _ (pr_new_inv _ _ _ hnew) (by show 52 ≤ 1024; omega) hv0
+  rw [hchk] at ho
+  simp only [Option.bind_some] at ho
   have hex : ∀ r : PR, r.physSize = d.length → extractXml r 0 0 = some ({ r with offset := 0 }, []) := by
     intro r hr
     unfold extractXml PR.seekPhysical
     rw [if_neg (by simp [maxXmlSize]), if_neg (by omega)]
     simp only [readExact_zero]
     simp
-  rw [hex _ rfl] at ho
+  rw [hex rc hsf.2.2.1] at ho
   simp only [Option.bind_some, hx] at ho
   cases h1 : rootFromDocument fp doc with
   | none => exact .inl rfl
